@@ -3,6 +3,7 @@ the text of its value (or of its error); logger receives (msg, tracepoint id, co
 message and one LOG watch per field."""
 import itertools
 import logging
+import re
 import threading
 
 import core
@@ -39,9 +40,13 @@ RULE = ('templates built from segment lists: literal runs (ASCII, unicode incl. 
 TRUSTED = ['Python str / repr / ascii / format on live values is the reference for a field\'s text',
            'Model/Template.lean re-models CPython 3.12\'s MarkupIterator / parse_field / str.__format__ / unicode_repr; '
            'isPrintable is approximated above ASCII (generators use letters / symbols for which it is exact)']
-ASSUMPTIONS = ['nested replacement fields inside a format spec ({x:{w}}) are outside the modelled domain and not '
-               'generated', 'empty fields ({}) are not "{expression} fields": compared with the model, not judged',
-               '__str__ of host values has no side effects and does not raise']
+ASSUMPTIONS = ['nested replacement fields inside a format spec ({x:{w}}) are modelled (Template.renderNested) and generated '
+               'in the raw stream (every 10th case: hand-written + random specs built from fields); they are not the '
+               'statement\'s `{expression}` fields, so they are compared with the model and not judged by the oracle', 'empty fields ({}) are not "{expression} fields": compared with the model, not judged',
+               '__str__ of host values has no side effects and does not raise',
+               'templates with a conversion or a format spec on some field are compared with the model only (the statement '
+               'speaks of `{expression}` fields); for every template the oracle demands one evaluation per field per hit '
+               '(counting pure host function tick)']
 
 LITS = ['a', 'value ', ' = ', 'x=', '{', '}', '{}', '{{', '}}', 'é', 'ünï', '世界', '😀', ' ', '%s', '%', '\\', '"', "'",
         '\n', '\t', 'end.', '[', ']', '!', ':', 'a!b:c', '[deep] ', 'λ→', '0', '{0}', 'tail}', '{head']
@@ -49,15 +54,20 @@ LOCALS = [['n', 5], ['neg', -12], ['f', 2.5], ['s', 'text'], ['u', 'ünï😀'],
           ['lst', [3, 1, 2]], ['d', {'k': 'v', 'a:b': 'colon', 'n': 7, '}': 'brace'}], ['o', {'obj': {'name': 'bob', 'age': 3}}],
           ['t', True], ['nothing', None], ['nl', 'line1\nline2'], ['bs', 'back\\slash'], ['tup', {'tuple': [1, 'a']}],
           # locals that shadow a module global / a builtin of the same name (the local must win, as at that line)
-          ['GSH', 'local-shadow'], ['GN2', 7], ['id', 'L:id'], ['type', 'L:type'], ['abs', 'L:abs'], ['sum', 15]]
-GLOBALS = {'GNUM': 42, 'GSTR': 'glob', 'uuid': 'host-uuid', 'GSH': 'global-shadowed', 'GN2': 70000,
+          ['w', 'a  b\tc'], ['wd', 8], ['p', 2], ['fmt', '*>6'], ['GSH', 'local-shadow'], ['GN2', 7], ['id', 'L:id'], ['type', 'L:type'], ['abs', 'L:abs'], ['sum', 15]]
+GLOBALS = {**X.SHADOW_GLOBALS, 'GNUM': 42, 'GSTR': 'glob', 'uuid': 'host-uuid', 'GSH': 'global-shadowed', 'GN2': 70000,
            'ONLYG': 'only-global', 'min': 'G:min'}
-FIELDS_OK = ['n', 'neg', 'f', 's', 'u', 'q', 'e', 'lst', 'd', 'o', 't', 'nothing', 'nl', 'bs', 'tup', 'n + 1', 'len(lst)',
+LOCALS = LOCALS + X.SHADOW_LOCALS
+FIELDS_OK = [e for e in X.SHADOW_TEXT_EXPRS + X.SHADOW_VALUE_EXPRS if not any(ch in e for ch in '{}!:')] + ["tick('a')", "tick('b')", 'tick(n)', "tick('a')", 'n', 'neg', 'f', 's', 'u', 'q', 'e', 'lst', 'd', 'o', 't', 'nothing', 'nl', 'bs', 'tup', 'n + 1', 'len(lst)',
              'lst[0]', 'lst[-1]', "d['k']", 'd["a:b"]', "d['n'] + n", "d['}']", 'o.name', 'o.age * 2', 'twice(n)', 'ident(s)',
              'GNUM', 'GSTR', 'uuid', 'GSTR.upper()', 's * 2', ' n ', 'n > 3', 'str(f)', "'%d' % n", '[x for x in lst]',
              's[1]', 'u[0]', 'max(lst)', '0', '7', '(n)', 'lst[0]  ', 'o', 'tup[1]',
              'GSH', 'GN2', 'id', 'type', 'abs', 'sum', 'GSH.upper()', 'GN2 + 1', 'ONLYG', 'min', 'GSH', 'id', 'GN2', 'sum + n',
-             '[GN2 for _ in lst]', "'%s/%s' % (GSH, ONLYG)"]
+             '[GN2 for _ in lst]', "'%s/%s' % (GSH, ONLYG)",
+             # white space inside string literals / a layout over several lines belongs to the expression
+             "'x  y'", "len('a \t b')", "s + '  ' + s", "nl.split('\n')", "'p\n\nq'", '(n +\n  1)',
+             "'%s  %s' % (n, s)", "d.get('k  k', 'none  found')", "w.split('  ')", "w == 'a  b\tc'", 'w',
+             "w.count('  ') + w.count('\t')"]
 FIELDS_FAIL = ['nope', 'n / 0', "d['missing']", 'd[1]', 'lst[99]', 'o.nothing', 'boom()', "boom('KeyboardInterrupt', 'stop')",
                "boom('HostInterrupt', 'halt')", "boom('SystemExit', 3)", 'int(s)', 'len(n)', 'n +', 'FrameType', 'time_ns()',
                "boom('GeneratorExit')", 'import os']
@@ -69,6 +79,28 @@ RAW_HAND = ['{', '}', '{n', 'n}', '{n!}', '{n!r', '{n!r:', '{n!rx}', '{n:}', '{}
             '{{n}', '{n}{', '}{', '{n!}}', '{n:>5', '{[}', '{d[}', '{d[k]}', '{lst[0]}', '{d[a:b]}', '{n!r:>6}', '{n:{}}x',
             '{!r}', '{:>4}', '{ }', '{n!s:}', '{{}}', '{{{n}}}', '{{{{', '}}}}', '{n:}}', '{n!a}', '{u!a}', '{nl!r}', '{q!r}',
             '{bs!r:>14}', '{s:.2}{s:5}|', '{n:05}', '{n:<05}', '{n:x<05}', '{5}', '{2}{1}', '{}{}{}', '{n:00}', '{s:0}']
+# replacement fields INSIDE a format spec: the spec is formatted one level down (its fields are further LOG watches,
+# evaluated after the field they belong to; automatic numbering runs on through the spec; a field three levels deep
+# raises "Max string recursion exceeded")
+RAW_NESTED = ['{s:{wd}}', '{s:>{wd}}|', '{n:{fmt}}', '{s:{fmt}.{p}}', '{s!r:{wd}}', '{:{}}', '{0:{1}}', '{s:{wd:{p}}}',
+              '{s:{nope}}', '{s:{wd!r}}', '{s:{{}}}', '{s:{wd}{p}}', '{s:x{e}<{wd}}', '{nope:{wd}}', 'a{s:{wd}}b{u:^{wd}}c',
+              '{s:{wd}}{}', '{}{s:{}}', '{s:{wd!x}}', '{s:{wd:>3}}', '{s:{d[k]}}', '{q!a:{wd}.{p}}', '{s:{:{}}}', '{s:{wd:{}}}',
+              '{s:{ wd }}', '{s!x:{wd}}', '{s:{wd}d}', '{n:{p}{wd}}', '{s:{wd:}}', '{s:{wd}:}', '{lst:{wd + 10}}']
+SPEC_BITS = ['{wd}', '>', '<', '^', '{p}', '.', '{fmt}', '5', '{e}', '{nope}', '{}', '{0}', '*', '{wd!s}', '{p:1}', 's', '{n + 1}']
+
+
+def gen_nested(rng):
+    out = []
+    for _ in range(rng.randint(1, 3)):
+        if rng.random() < 0.4:
+            out.append(rng.choice(['x=', ' ', '|', '{{', '}}', 'é']))
+        expr = rng.choice(['s', 'n', 'u', 'q', 'nope', 'lst', "d['k']", 'o.name', 'n + 1', '', '0'])
+        conv = rng.choice(['', '', '', '!r', '!s', '!a'])
+        spec = ''.join(rng.choice(SPEC_BITS) for _ in range(rng.randint(1, 3)))
+        out.append('{' + expr + conv + ':' + spec + '}')
+    return ''.join(out)
+
+
 SOUP = ['{', '}', '{{', '}}', 'n', 's', ' ', '!', ':', '[', ']', 'r', 'a', 'x', '.', '0', '1', '<', '>', '^', '5', 'é', "'",
         '=', 'd', '-', 'k']
 COUNTS = ['1', '2', '-1']
@@ -185,7 +217,9 @@ def gen(rng, tier):
         if k % 5 == 0:
             c['kind'] = 'raw'
             r = rng.random()
-            if r < 0.35:
+            if k % 10 == 0:
+                c['tpl'] = rng.choice(RAW_NESTED) if r < 0.5 else gen_nested(rng)
+            elif r < 0.35:
                 c['tpl'] = rng.choice(RAW_HAND)
             elif r < 0.7:
                 c['tpl'] = ''.join(rng.choice(SOUP) for _ in range(rng.randint(1, 12)))
@@ -213,6 +247,7 @@ def corpus():
         dict(b, kind='tpl', mode='log', logger='falsy', segs=[['lit', 'n='], ['field', 'n', None, '']]),
         dict(b, kind='tpl', logger='falsy', cfg={'fire_count': '-1', 'fire_period': '0'}, hits=[5, 6],
              segs=[['lit', 's='], ['field', 's', None, '']]),
+        dict(b, kind='raw', tpl='{s:>{wd}}|{n:{fmt}}'), dict(b, kind='raw', tpl='{s:{wd:{p}}}'), dict(b, kind='raw', tpl='{:{}}'),
         dict(b, kind='raw', tpl='{n'), dict(b, kind='raw', tpl='}'), dict(b, kind='raw', tpl='{n:d}'),
         dict(b, kind='raw', mode='log', tpl='{}{0}'), dict(b, kind='tpl', segs=[]),
         # budget spent by the frame: fields with fresh values still render their values
@@ -295,7 +330,7 @@ def run_multi(case):
     rig = Rig(logger=False, plugins=[logger])
     try:
         name = X.unique('verif_host_c16')
-        mod = X.make_module(name, GLOBALS)
+        mod = X.make_module(name, GLOBALS, extra={'tick': PURE_TICK})
         trigs = []
         for i, tp in enumerate(case['tps']):
             args = {'fire_count': case['cfg']['fire_count'], 'fire_period': case['cfg']['fire_period']}
@@ -419,7 +454,7 @@ def run_conc(case):
     rig = Rig(logger=False, plugins=[logger])
     try:
         name = X.unique('verif_host_c16')
-        mod = X.make_module(name, GLOBALS)
+        mod = X.make_module(name, GLOBALS, extra={'tick': PURE_TICK})
         rig.install([build_log_trigger(case, name + '.py', 7)])
         rig.clock = case['hits'][0]
         owners, orig_push = [], rig.push.push_snapshot
@@ -516,11 +551,18 @@ def run_impl(case):
         rig.logger = plugins[0]
     try:
         name = X.unique('verif_host_c16')
-        mod = X.make_module(name, GLOBALS)
+        ticks = {}
+
+        def tick(key):
+            """a pure host function that counts how often it is evaluated"""
+            ticks[str(key)] = ticks.get(str(key), 0) + 1
+            return 'tick-%s' % (key,)
+        mod = X.make_module(name, GLOBALS, extra={'tick': tick})
         fn, line = X.host_function(mod, 'host', [], LOCALS, '/app/%s.py' % name)
         rig.install([build_log_trigger(case, name + '.py', line)])
         hits = []
         for ts in case['hits']:
+            ticks.clear()
             rig.clock = ts
             n_log, n_snap = len(rig.logger.logged), len(rig.push.pushed)
             n_line = len(cap.lines) if cap else 0
@@ -543,6 +585,7 @@ def run_impl(case):
                 h['second'] = len(second.logged)
             h['lines'] = list(cap.lines[n_line:]) if cap else []
             h['snapshots'] = len(snaps)
+            h['ticks'] = dict(ticks)
             if snaps:
                 s = snaps[0]
                 h['snap_log'] = s.log_msg
@@ -631,8 +674,12 @@ def ref_parse(t):
     return segs
 
 
-def ref_env(thread=None):
-    mod = X.make_module('verif_ref_c16', GLOBALS)
+def PURE_TICK(key):
+    return 'tick-%s' % (key,)
+
+
+def ref_env(thread=None, tick=None):
+    mod = X.make_module('verif_ref_c16', GLOBALS, extra={'tick': tick or (lambda key: 'tick-%s' % (key,))})
     if thread is None:
         return mod.__dict__, {k: X.build_value(v) for k, v in LOCALS}
     loc = {k: X.build_value(v) for k, v in thread_locals(thread)}
@@ -693,6 +740,8 @@ def oracle_multi(case, obs):
     for i, tp in enumerate(case['tps']):
         if tp['kind'] == 'snap' or i in case['log_fail']:
             continue
+        if has_format_part(tp['segs']) or outside_statement(tp['segs']):
+            continue        # conversions / format specs: compared with the model, not demanded by the oracle
         exp = ref_render(tp['segs'])
         got = [m for m in obs['messages'] if m[0] == 'tp%d' % i]
         if exp is None:
@@ -711,6 +760,43 @@ def oracle_multi(case, obs):
     return v
 
 
+def expected_ticks(segs):
+    """how often the counting host function is evaluated when every field of the template is evaluated ONCE"""
+    counts = {}
+
+    def tick(key):
+        counts[str(key)] = counts.get(str(key), 0) + 1
+        return 'tick-%s' % (key,)
+    g, loc = ref_env(tick=tick)
+    for sg in segs:
+        if sg[0] == 'field':
+            X.at_line(sg[1], g, loc)
+    return counts
+
+
+def oracle_once(case, obs, segs):
+    """the statement: each field is replaced by the string form of that expression evaluated in the paused frame, and
+    recorded with one watch result — ONE evaluation per field per hit serves both"""
+    v = []
+    # the tracepoint's own watches (limits stream) are expressions of the same hit, evaluated once each as well
+    want = expected_ticks(list(segs) + [['field', w, None, ''] for w in case.get('watches') or []])
+    for i, h in enumerate(obs['hits']):
+        if 'ticks' not in h or not ([c[0] for c in h['logger']] + h['lines']):
+            continue            # no message for this hit (limits, malformed, no logger): nothing to compare
+        if h['ticks'] != want:
+            k = next(k for k in sorted(set(want) | set(h['ticks'])) if want.get(k, 0) != h['ticks'].get(k, 0))
+            v.append(f'hit {i}: the field expression tick({k!r}) was evaluated {h["ticks"].get(k, 0)} time(s) for one '
+                     f'message; the template has it {want.get(k, 0)} time(s) (a field is evaluated once: message text '
+                     f'and its watch result are the same evaluation)')
+    return v[:2]
+
+
+def has_format_part(segs):
+    """a conversion or a format spec on some field: the statement speaks of `{expression}` fields only — what the
+    formatter does with `!r` / `:>8` is compared with the model, not demanded by the oracle"""
+    return any(sg[0] == 'field' and (sg[2] is not None or sg[3] != '') for sg in segs)
+
+
 def oracle(case, obs):
     if case['kind'] == 'multi':
         return oracle_multi(case, obs)
@@ -719,7 +805,11 @@ def oracle(case, obs):
         if 'raised' in h:
             return ['the agent disturbed the host: ' + h['raised']]
     segs = case['segs'] if case['kind'] in ('tpl', 'conc') else ref_parse(case['tpl'])
-    if segs is not None and outside_statement(segs):
+    if segs is not None and case['kind'] != 'conc':
+        v = oracle_once(case, obs, segs)
+        if v:
+            return v
+    if segs is not None and (outside_statement(segs) or has_format_part(segs)):
         return []
     if case['kind'] == 'conc':
         # two threads, each at the tracepoint with its own frame: `hit i` below is thread i
